@@ -369,6 +369,61 @@ pub fn run(ctx: &Ctx) -> (Spec, Report) {
         rep
     });
     rep.merge(r2);
+    // multi-file Scala (crates that do not refer to each other; Scala has no cross-crate imports): the backend object is
+    // reused for every crate file, and each file's package object has to define the unsigned aliases that file uses
+    let n_scala = ctx.tier.pick(48, 300);
+    let scratch_scala = ctx.scratch("scala-multi");
+    let r_scala = par_shards(ctx.threads, n_scala, |i| {
+        let mut rep = Report::new();
+        let mut rng = Rng::derive(seed, "C12-scala-multi", i as u64);
+        let n_crates = rng.range(2, 4);
+        let names = ["alpha", "beta", "gamma", "delta"];
+        let mut files = vec![];
+        let mut users = vec![];
+        for (k, name) in names.iter().enumerate().take(n_crates) {
+            let uses = rng.chance(2, 3);
+            users.push(uses);
+            let leaf: &str = ["u8", "u16", "u32", "U53"][rng.below(4)];
+            let depth = rng.below(3);
+            let ty = if uses { nest(leaf, depth, &mut rng) } else { "i32".to_string() };
+            files.push(SrcFile { path: format!("src_root/{name}/src/lib.rs"), source: format!("#[typeshare]\npub struct S{k}{} {{ pub a: {ty}, pub b: String }}\n", name.to_uppercase()) });
+        }
+        let root = scratch_scala.join(format!("m{i}"));
+        write_tree(&root, &files);
+        let out = root.join("out");
+        let mut cfg = LangCfg::basic(LangId::Scala);
+        cfg.package = rng.pick(&["com.verif.gen", "pkg"]).to_string();
+        let o = run_bin(BinRun { cli: &cli, args: cli_args(LangId::Scala, &cfg, true, &out, &["src_root"]), env: vec![], cwd: &root, strace: None, wall_limit: Duration::from_secs(30) });
+        rep.eval(1);
+        rep.count("cli_runs", 1);
+        rep.cell(format!("scala-multi|crates={n_crates}|users={:?}|package={}", users, cfg.package.contains('.')));
+        if !o.ok() {
+            rep.inconclusive("cli-run-failed", json!({"stderr": o.stderr.chars().take(300).collect::<String>()}));
+        } else {
+            for (fname, bytes) in read_dir_files(&out) {
+                let text = String::from_utf8_lossy(&bytes).into_owned();
+                for a in ["UByte", "UShort", "UInt", "ULong"] {
+                    // a use is the alias name as a type, i.e. anywhere but in its own definition line
+                    let used = text.lines().any(|l| !l.trim_start().starts_with(&format!("type {a} ")) && l.split(|c: char| !c.is_alphanumeric()).any(|w| w == a));
+                    let defined = text.lines().any(|l| l.trim_start().starts_with(&format!("type {a} ")));
+                    if used {
+                        rep.count("helper_uses_scala_unsigned_alias_multi_file", 1);
+                        if !defined {
+                            rep.violate(
+                                "C12|scala|unsigned-alias|multi-file".to_string(),
+                                format!("{fname} uses {a} but does not define it (crates using unsigned integers: {users:?})"),
+                                json!({"files": files.iter().map(|f| json!({"path": f.path, "source": f.source})).collect::<Vec<_>>(), "file": fname, "output": text}),
+                            );
+                        }
+                    }
+                }
+            }
+        }
+        let _ = std::fs::remove_dir_all(&root);
+        rep
+    });
+    rep.merge(r_scala);
+    let _ = std::fs::remove_dir_all(&scratch_scala);
     // multi-file Python: the backend object is reused for every crate file, so each file has to carry the imports,
     // TypeVars and helper functions of its own triggers - whatever the files generated before or after it needed
     let n_py = ctx.tier.pick(60, 400);
@@ -463,7 +518,7 @@ pub fn run(ctx: &Ctx) -> (Spec, Report) {
     let _ = std::fs::remove_dir_all(&scratch);
     let spec = Spec {
         level: "exploration",
-        rule: format!("one trigger type out of {{(), u8, u16, u32, U53, OffsetDateTime, mapped Vec<u8>, generic T, HashMap<String,u8>, HashMap<u16,String>, HashMap<u32,Vec<bool>> (the helper-needing type only as a map key)}} at one position out of {{field, struct-variant field, payload, alias, generic argument, skipped field (PhantomData)}} under 0-3 random wrappers, plain / with serde(default) / with a type override for one of kotlin, swift, typescript, scala, go on the subject field (all {n_grid} combinations), then random placements up to depth 4 with other triggers combined; Scala under dotted and single-segment packages; for each backend the names it introduces are collected from the parsed output and must be defined or imported in the same file (Swift CodableVoid, Scala UByte..ULong, Go package selectors / encoding/json, Kotlin serialization imports, TS reviver/replacer pair, its key tests, and conversely a key test for every field whose whole type is Date (bare, optional, doubly optional), every Python name via CPython ast + import under stub pydantic); {n_cli} multi-crate Swift runs of the real binary check Codable.swift and {n_py} multi-crate Python runs resolve every name of every generated file separately (the backend object is shared by the files of one run); distinct = (language, trigger, position, depth class, combined?)"),
+        rule: format!("one trigger type out of {{(), u8, u16, u32, U53, OffsetDateTime, mapped Vec<u8>, generic T, HashMap<String,u8>, HashMap<u16,String>, HashMap<u32,Vec<bool>> (the helper-needing type only as a map key)}} at one position out of {{field, struct-variant field, payload, alias, generic argument, skipped field (PhantomData)}} under 0-3 random wrappers, plain / with serde(default) / with a type override for one of kotlin, swift, typescript, scala, go on the subject field (all {n_grid} combinations), then random placements up to depth 4 with other triggers combined; Scala under dotted and single-segment packages; for each backend the names it introduces are collected from the parsed output and must be defined or imported in the same file (Swift CodableVoid, Scala UByte..ULong, Go package selectors / encoding/json, Kotlin serialization imports, TS reviver/replacer pair, its key tests, and conversely a key test for every field whose whole type is Date (bare, optional, doubly optional), every Python name via CPython ast + import under stub pydantic); {n_cli} multi-crate Swift runs of the real binary check Codable.swift, {n_scala} multi-crate Scala runs check every file's own aliases and {n_py} multi-crate Python runs resolve every name of every generated file separately (the backend object is shared by the files of one run); distinct = (language, trigger, position, depth class, combined?)"),
         assumptions: vec![
             "TypeScript: the decisive form is the weak one (helpers come in pairs and test existing keys); a Date/Uint8Array type without helpers is counted, not reported, because the generated code never uses the helper names itself".into(),
         ],
